@@ -31,7 +31,8 @@ CLUSTERS = [['x', 'x1', 'xx', 'x_1', 'x_000', 'x0', 'xF', 'xE', 'X', 'LAG_x'],
             ['a', 'b', 'ab', 'a_b', 'ba', 'b1', 'b101', 'o17'],
             ['HH__F', 'HH__F1', 'H__F', 'F', 'xF', '_12__F', '_1__F', '_12__F1'],
             ['y', 'yy', 'LAG_y', 'k', 't'],
-            ['inf', 'nan', 'infinity', 'Infinity', 'NaN', 'INF', 'e5', 'j']]     # names float() would read as numbers
+            ['inf', 'nan', 'infinity', 'Infinity', 'NaN', 'INF', 'e5', 'j'],     # names float() would read as numbers
+            ['\u03b1', '\u03b11', '\u03b1\u03b2', '\u03b8', '\u0394', '\u03b2', '\u00e9pargne', 'x']]   # Greek / accented identifiers
 
 FUNC_TABLE = {'max': max, 'min': min, 'abs': abs, 'sqrt': math.sqrt, 'exp': math.exp, 'log': math.log,
               'pow': pow, 'float': float}
